@@ -1,0 +1,24 @@
+//go:build verif
+
+package api
+
+// Verification hooks (build tag "verif" only).
+
+// VerifRoute is one registered API route: the method and path of the mux
+// pattern RegisterHandlers builds for it, and whether it demands a session.
+type VerifRoute struct {
+	Method       string
+	Path         string
+	RequiresAuth bool
+}
+
+// VerifRoutes lists the routes RegisterHandlers registers, in registration order.
+func (api *API) VerifRoutes() []VerifRoute {
+	var out []VerifRoute
+	for _, endpoint := range api.endpoints {
+		for _, method := range endpoint.EndpointMethods() {
+			out = append(out, VerifRoute{Method: method.Method, Path: api.basePath + endpoint.Path(), RequiresAuth: method.RequiresAuth})
+		}
+	}
+	return out
+}
